@@ -1030,6 +1030,7 @@ package statefulset
 //@   ensures permutedinj: forall a int, b int :: {sortPerm(old(revisions), revisions, a), sortPerm(old(revisions), revisions, b)} 0 <= a && a < b && b < len(revisions) ==> sortPerm(old(revisions), revisions, a) != sortPerm(old(revisions), revisions, b)
 //@   ensures [C08] mirrors: err == nil ==> bytesId(upd.Data.Raw) == patchIdOf(set) || gApiFails > old(gApiFails)
 //@   ensures [C02,C08] nonewrevision: (exists i int :: {revisions[i]} 0 <= i && i < len(revisions) && revEqualData(revisions[i], gNewRev)) ==> gRevCreates == old(gRevCreates)
+//@   ensures [C02] norenumber: len(revisions) > 0 && revEqualData(revisions[len(revisions) - 1], gNewRev) ==> gRevUpdates == old(gRevUpdates) && gRevCreates == old(gRevCreates)
 //@   ensures [C08] rollbackabove: gRevUpdates > old(gRevUpdates) && err == nil ==> (forall i int :: {revisions[i]} 0 <= i && i < len(revisions) ==> revisions[i].Revision < upd.Revision || gApiFails > old(gApiFails))
 //@   ensures [C12] currentkept: err == nil && (exists i int :: {revisions[i]} 0 <= i && i < len(revisions) && revisions[i].Name == set.Status.CurrentRevision) ==> cur.Name == set.Status.CurrentRevision
 //@   ensures [C09] origin: err != nil ==> gApiFails > old(gApiFails) || errLocal(err)
